@@ -126,8 +126,12 @@ def _case(arg):
                             item = {'name': name, 'src': src, 'start': ids[id(start.a)], 'on': on, 'nested': nested, 'back': back,
                                     'scope': scope}
                             try:
-                                item['got'] = actual(start, pat, ids, on, nested, back, scope)
-                                item['want'] = expected(start, pat, ids, on, nested, back, scope)
+                                item['got'] = L.call_with_timeout(20, actual, start, pat, ids, on, nested, back, scope)
+                                item['want'] = L.call_with_timeout(20, expected, start, pat, ids, on, nested, back, scope)
+                            except L.Timeout as e:
+                                item['exc'] = 'does-not-terminate: ' + str(e)
+                                out.append(item)
+                                return out          # do not spend the budget on more non-terminating calls
                             except Exception as e:      # noqa: BLE001
                                 item['exc'] = type(e).__name__ + ': ' + str(e)[:120]
                             if js and start is root and nested and not back and not scope:
@@ -206,7 +210,7 @@ def sweep(ctx):
         w = {'kind': 'events', 'src': it['src'], 'pattern': it['name'], 'start': it['start'], 'on': it['on'], 'nested': it['nested'],
              'back': it['back'], 'scope': it['scope']}
         if 'exc' in it:
-            sig = f'C17|search-events|on={it["on"]}|raised'
+            sig = f'C17|search-events|on={it["on"]},nested={it["nested"]}|' + ('does-not-terminate' if it['exc'].startswith('does-not') else 'raised')
             seen[sig] = seen.get(sig, 0) + 1
             if seen[sig] <= 2:
                 ctx.fail(sig, f'search({it["name"]}, {_mode(it)}) raised {it["exc"]}', w)
